@@ -302,8 +302,8 @@ namespace Proc
 open AGP AGP.Ctl
 
 /-- the solver state up to what `DoLocalRefinement` may have overwritten: the point and the value holder of the
-stored trials, and `numberOfLocalTrials` -/
-def PState.forget (ps : PState α) : PState α := { ps with m := ps.m.map State.forget, nLocal := 0 }
+stored trials, `numberOfLocalTrials`, and which trial was refined (`__refinedTrial`) -/
+def PState.forget (ps : PState α) : PState α := { ps with m := ps.m.map State.forget, nLocal := 0, refined := none }
 
 def forgetRes {β : Type} : Except (PState α × Raise) (PState α × β) → Except (PState α × Raise) (PState α × β)
   | .ok (ps, b) => .ok (ps.forget, b)
@@ -582,7 +582,7 @@ open AGP AGP.Ctl
 theorem fields_of_core {X ps : PState α} (h : X.core = ps.core) :
     X.nTrials = ps.nTrials ∧ X.iters = ps.iters ∧ X.minDelta = ps.minDelta ∧ X.evals = ps.evals ∧
     X.calls = ps.calls ∧ X.m = ps.m := by
-  obtain ⟨h1, h2, -, h4⟩ := PState.core_eq_iff.1 h
+  obtain ⟨h1, h2, -, h4, -⟩ := PState.core_eq_iff.1 h
   simp only [PState.nTrials, PState.iters, PState.minDelta, h1]
   exact ⟨trivial, trivial, trivial, h2, h4, trivial⟩
 
